@@ -85,7 +85,9 @@ theorem div_nxm_full (num ds : List ℕ)
         + val (2 ^ 64) (divNxmArr T U num ds d (recip2Code d)).2
     ∧ val (2 ^ 64) (divNxmArr T U num ds d (recip2Code d)).2 < val (2 ^ 64) ds
     ∧ (divNxmArr T U num ds d (recip2Code d)).1.length = num.length
-    ∧ (divNxmArr T U num ds d (recip2Code d)).2.length = ds.length := by
+    ∧ (divNxmArr T U num ds d (recip2Code d)).2.length = ds.length
+    ∧ AllLt (2 ^ 64) (divNxmArr T U num ds d (recip2Code d)).1
+    ∧ AllLt (2 ^ 64) (divNxmArr T U num ds d (recip2Code d)).2 := by
   have key := div_nxm_u64_spec num ds hnum hds h3 hlen htop
   simp only at key
   rw [← hsh, ← hT, ← hU, ← hd] at key
